@@ -768,6 +768,73 @@ fn halves_written_across_flash_toggles(ctx: &Ctx, quick: bool) {
     });
 }
 
+/// 16-bit stores (LD (nn),rr in its four encodings) whose two bytes lie on both sides of a 16K window
+/// boundary, of the end of the display file, of the bitmap/attribute border, or inside the screen:
+/// after the store the picture is the decode of the displayed memory as it now is.
+fn word_stores(ctx: &Ctx) {
+    let pic = latin(123);
+    // (cfg, latch, addresses)
+    let cases: Vec<(Cfg, u8, Vec<u16>)> = vec![
+        (Cfg::K48, 0, vec![0x3FFF, 0x4000, 0x57FF, 0x5AFE, 0x5AFF, 0x7FFF]),
+        (Cfg::K128Normal, 0x00, vec![0x3FFF, 0x4000, 0x57FF, 0x5AFF, 0x7FFF]),
+        (Cfg::K128Bank5AtC000, 0x05, vec![0xBFFF, 0xC000, 0xD7FF, 0xDAFF, 0xFFFF, 0x3FFF, 0x7FFF]),
+        (Cfg::K128Shadow, 0x0F, vec![0xBFFF, 0xC000, 0xD7FF, 0xDAFF, 0xFFFF]),
+    ];
+    for (c, latch, addrs) in cases {
+        for nn in addrs {
+            for form in 0..4usize {
+                ctx.add_eval(1);
+                let mut o = Opts::machine(m128(c));
+                o.sound = false;
+                let mut e = rig::emu(&o);
+                set_idle(&mut e);
+                if m128(c) {
+                    rig::poke(&mut e, 0x8800, &[0x01, 0xFD, 0x7F, 0x3E, latch, 0xED, 0x79, 0xC3, IDLE as u8, (IDLE >> 8) as u8]);
+                    e.verif_cpu().regs.set_pc(0x8800);
+                    frames(&mut e, 1);
+                }
+                // a picture is on the screen (stored by the CPU through the window the screen is written through)
+                let dst: u16 = if matches!(c, Cfg::K128Shadow | Cfg::K128Bank5AtC000) { 0xC000 } else { 0x4000 };
+                rig::poke(&mut e, 0xA000, &pic);
+                rig::poke(&mut e, 0x8900, &[0xF3, 0x21, 0x00, 0xA0, 0x11, dst as u8, (dst >> 8) as u8, 0x01, 0x00, 0x1B, 0xED, 0xB0, 0xC3, IDLE as u8, (IDLE >> 8) as u8]);
+                e.verif_cpu().regs.set_pc(0x8900);
+                frames(&mut e, 5);
+                let (lo, hi) = (nn as u8, (nn >> 8) as u8);
+                let code: Vec<u8> = match form {
+                    0 => vec![0x21, 0x5A, 0xA5, 0x22, lo, hi],
+                    1 => vec![0x01, 0x5A, 0xA5, 0xED, 0x43, lo, hi],
+                    2 => vec![0x11, 0x5A, 0xA5, 0xED, 0x53, lo, hi],
+                    _ => vec![0xDD, 0x21, 0x5A, 0xA5, 0xDD, 0x22, lo, hi],
+                };
+                let mut prog = vec![0xF3];
+                prog.extend(code);
+                prog.extend([0xC3, IDLE as u8, (IDLE >> 8) as u8]);
+                rig::poke(&mut e, 0x8A00, &prog);
+                e.verif_cpu().regs.set_pc(0x8A00);
+                frames(&mut e, 3);
+                let mem = displayed_memory(&e, m128(c));
+                if let Err((x, y, g, w)) = compare_frame(&e, &mem) {
+                    ctx.violation(
+                        &format!("C08:word-store:{:?}", c),
+                        &format!(
+                            "{:?}: 16-bit store of A55Ah at {:04x} ({}), then three idle frames: pixel ({},{}) shows {:02x}, the decode of the displayed memory gives {:02x}",
+                            c,
+                            nn,
+                            ["LD (nn),HL", "LD (nn),BC", "LD (nn),DE", "LD (nn),IX"][form],
+                            x,
+                            y,
+                            g,
+                            w
+                        ),
+                        json!({"kind":"word-store","cfg":format!("{:?}", c),"addr":nn,"form":form}),
+                    );
+                }
+                ctx.outcome(0x3057 ^ (nn as u64) << 8 ^ (form as u64) << 32 ^ (mem[0] as u64) << 40);
+            }
+        }
+    }
+}
+
 fn beam_clause_free_running(ctx: &Ctx, is128: bool, lines: &[usize]) {
     let sp = spec(is128);
     let jobs: Vec<(usize, usize)> = lines.iter().flat_map(|l| [0usize, 15, 31].into_iter().map(move |c| (*l, c))).collect();
@@ -1011,6 +1078,7 @@ pub fn run(tier: Tier, seed: u64, replay: Option<String>) -> i32 {
     fastload_short_block(&ctx);
     stores_around_the_beam_then_idle(&ctx);
     failed_loads(&ctx, quick);
+    word_stores(&ctx);
     halves_written_across_flash_toggles(&ctx, quick);
     let lines: Vec<usize> = if quick { vec![0, 1, 7, 8, 63, 64, 65, 100, 127, 128, 190, 191] } else { (0..192).collect() };
     beam_clause(&ctx, false, &lines);
@@ -1022,7 +1090,7 @@ pub fn run(tier: Tier, seed: u64, replay: Option<String>) -> i32 {
     ctx.note("contents", json!(contents.len()));
     ctx.note("not_judged", json!("phase of the first FLASH swap; stores completing within +-16 T of the ULA fetch of the byte"));
     ctx.finish(
-        "contents: Latin frames (bitmap[a]=(17a+j) mod 256, attr[a]=(29a+3j) mod 256: every screen address meets every byte value over j) and 26 address-line frames; writers: LDIR, explicit CPU store loop, execute_poke, tape fast load through the ROM trap, SNA, SZX stored, SZX zlib, SCR (files through assets returning short reads of rotating sizes {whole,1,2,3,7,127,128,129}); configurations: 48K, 128K normal screen, 128K shadow screen written through C000, bank 5 written through C000; after two unchanged frames all 49152 pixels (colour and brightness) are compared with the standard decode of the displayed bank; FLASH run lengths over 48 frames; paging bit 3 switched between frames, also after the latch is locked (the displayed bank is computed from the reference latch, not from the implementation); snapshot with both screens loaded then flipped by the program; SNA/SZX save with SP inside the display memory; tape blocks shorter than the request fast-loaded over a picture already shown; two stores in one frame on both sides of the beam followed by six idle frames; a 128K screen bank written in two halves 1..49 frames apart (FLASH toggles in between) while hidden or shown, then displayed: one FLASH phase for all cells; SNA/SZX/SCR loads over a shown picture from files truncated at cut points spread over the file and through assets whose k-th call fails, the picture compared with the displayed memory as the call left it; beam clause on picture lines x columns {0,15,31} x store times -90..+70 T around the ULA fetch. distinct_nontrivial = (configuration, writer, content) cases",
+        "contents: Latin frames (bitmap[a]=(17a+j) mod 256, attr[a]=(29a+3j) mod 256: every screen address meets every byte value over j) and 26 address-line frames; writers: LDIR, explicit CPU store loop, execute_poke, tape fast load through the ROM trap, SNA, SZX stored, SZX zlib, SCR (files through assets returning short reads of rotating sizes {whole,1,2,3,7,127,128,129}); configurations: 48K, 128K normal screen, 128K shadow screen written through C000, bank 5 written through C000; after two unchanged frames all 49152 pixels (colour and brightness) are compared with the standard decode of the displayed bank; FLASH run lengths over 48 frames; paging bit 3 switched between frames, also after the latch is locked (the displayed bank is computed from the reference latch, not from the implementation); snapshot with both screens loaded then flipped by the program; SNA/SZX save with SP inside the display memory; tape blocks shorter than the request fast-loaded over a picture already shown; two stores in one frame on both sides of the beam followed by six idle frames; 16-bit stores (four encodings of LD (nn),rr) straddling every 16K window boundary, the end of the display file and the bitmap/attribute border on four configurations; a 128K screen bank written in two halves 1..49 frames apart (FLASH toggles in between) while hidden or shown, then displayed: one FLASH phase for all cells; SNA/SZX/SCR loads over a shown picture from files truncated at cut points spread over the file and through assets whose k-th call fails, the picture compared with the displayed memory as the call left it; beam clause on picture lines x columns {0,15,31} x store times -90..+70 T around the ULA fetch. distinct_nontrivial = (configuration, writer, content) cases",
         false,
         &["quick tier rotates contents over the non-LDIR writers (each writer sees a quarter of the contents)", "beam clause places the frame clock through the hook"],
     )
